@@ -72,6 +72,19 @@ func checkRun(c runCase) (h.Info, error) {
 	info := h.Info{Class: fmt.Sprintf("v%d/%s/%s", c.Version, c.Target, c.Cancel), NT: c.Workers >= 2 && (c.Cancel != "never" || c.Target == "every-lane")}
 	old := runtime.GOMAXPROCS(c.Procs)
 	defer runtime.GOMAXPROCS(old)
+	curSub, curCase = subName, c
+	elapsed, err := mineAndJudge(c)
+	if err != nil {
+		return info, err
+	}
+	return info, awaitNoGoroutines(fmt.Sprintf("Mine (v%d, %d workers, %s, cancel=%s)", c.Version, c.Workers, c.Target, c.Cancel), elapsed)
+}
+
+// mineAndJudge runs one Mine call as described by c (GOMAXPROCS is the caller's business) and checks
+// termination and the result contract.
+func mineAndJudge(c runCase) (time.Duration, error) {
+	attainable := c.Target != "unattainable"
+	var info h.Info
 
 	ell := float64(len(c.Data) + 8)
 	var t1 float64
@@ -89,7 +102,7 @@ func checkRun(c runCase) (h.Info, error) {
 	case "unattainable":
 		t1, t2 = math.Pow(3, 60)/ell, math.MaxUint64/uint64(ell)-1
 	default:
-		return h.Info{}, fmt.Errorf("PRECONDITION: target class")
+		return 0, fmt.Errorf("PRECONDITION: target class")
 	}
 
 	ctx, cancel := context.WithCancel(context.Background())
@@ -113,7 +126,7 @@ func checkRun(c runCase) (h.Info, error) {
 		}()
 	case "never":
 	default:
-		return h.Info{}, fmt.Errorf("PRECONDITION: cancel mode")
+		return 0, fmt.Errorf("PRECONDITION: cancel mode")
 	}
 
 	done := make(chan result, 1)
@@ -134,7 +147,7 @@ func checkRun(c runCase) (h.Info, error) {
 		case r = <-done:
 		case <-time.After(4 * hangBound):
 			_, dump := powGoroutines()
-			h.FailAndExit("C13", subName, c, fmt.Errorf("Mine (v%d, %d workers, %s target, no cancellation) did not return within %v\n%s", c.Version, c.Workers, c.Target, 4*hangBound, dump))
+			h.FailAndExit("C13", curSub, curCase, fmt.Errorf("Mine (v%d, %d workers, %s target, no cancellation) did not return within %v\n%s", c.Version, c.Workers, c.Target, 4*hangBound, dump))
 		}
 	} else {
 		// wait for the result; once the context is cancelled Mine has hangBound to return
@@ -145,7 +158,7 @@ func checkRun(c runCase) (h.Info, error) {
 			case r = <-done:
 			case <-time.After(hangBound):
 				_, dump := powGoroutines()
-				h.FailAndExit("C13", subName, c, fmt.Errorf("Mine (v%d, %d workers, GOMAXPROCS %d, %s target) did not return within %v after the context was cancelled (%s)\n%s", c.Version, c.Workers, c.Procs, c.Target, hangBound, c.Cancel, dump))
+				h.FailAndExit("C13", curSub, curCase, fmt.Errorf("Mine (v%d, %d workers, GOMAXPROCS %d, %s target) did not return within %v after the context was cancelled (%s)\n%s", c.Version, c.Workers, c.Procs, c.Target, hangBound, c.Cancel, dump))
 			}
 		}
 	}
@@ -161,35 +174,145 @@ func checkRun(c runCase) (h.Info, error) {
 			ok = pow2.Score(msgOf(c.Data, r.nonce)) >= t2
 		}
 		if !ok {
-			return info, fmt.Errorf("Mine v%d (%d workers, %s, cancel=%s) returned nonce %d without error but it does not meet the target", c.Version, c.Workers, c.Target, c.Cancel, r.nonce)
+			return elapsed, fmt.Errorf("Mine v%d (%d workers, %s, cancel=%s) returned nonce %d without error but it does not meet the target", c.Version, c.Workers, c.Target, c.Cancel, r.nonce)
 		}
 	case errors.Is(r.err, pow1.ErrCancelled) || errors.Is(r.err, pow2.ErrCancelled):
 		if ctx.Err() == nil {
-			return info, fmt.Errorf("Mine v%d returned the cancellation error although the context was never cancelled (%d workers, %s target)", c.Version, c.Workers, c.Target)
+			return elapsed, fmt.Errorf("Mine v%d returned the cancellation error although the context was never cancelled (%d workers, GOMAXPROCS %d, %s target)", c.Version, c.Workers, runtime.GOMAXPROCS(0), c.Target)
 		}
 	default:
-		return info, fmt.Errorf("Mine v%d returned unexpected error %v", c.Version, r.err)
+		return elapsed, fmt.Errorf("Mine v%d returned unexpected error %v", c.Version, r.err)
 	}
 	if !attainable && r.err == nil {
-		return info, fmt.Errorf("harness self-check: unattainable target was attained")
+		return elapsed, fmt.Errorf("harness self-check: unattainable target was attained")
 	}
+	_ = info
+	return elapsed, nil
+}
 
-	// every goroutine Mine started has finished or finishes immediately
+// awaitNoGoroutines: every goroutine Mine started has finished or finishes immediately.
+func awaitNoGoroutines(what string, elapsed time.Duration) error {
 	deadline := time.Now().Add(leakBound)
 	for {
 		n, dump := powGoroutines()
 		if n == 0 {
-			break
+			return nil
 		}
 		if time.Now().After(deadline) {
-			return info, fmt.Errorf("%d goroutine(s) started by Mine (v%d, %d workers, %s, cancel=%s) are still alive %v after it returned (took %v)\n%s", n, c.Version, c.Workers, c.Target, c.Cancel, leakBound, elapsed, dump)
+			return fmt.Errorf("%d goroutine(s) started by %s are still alive %v after it returned (took %v)\n%s", n, what, leakBound, elapsed, dump)
 		}
 		time.Sleep(2 * time.Millisecond)
 	}
-	return info, nil
+}
+
+// ---- histories: calls back to back on the same Workers ----
+
+type seqCase struct {
+	Procs int       `json:"gomaxprocs"`
+	Steps []runCase `json:"steps"`
+}
+
+func checkSeq(c seqCase) (h.Info, error) {
+	if c.Procs < 1 || len(c.Steps) == 0 {
+		return h.Info{}, fmt.Errorf("PRECONDITION: sequence")
+	}
+	old := runtime.GOMAXPROCS(c.Procs)
+	defer runtime.GOMAXPROCS(old)
+	info := h.Info{Class: fmt.Sprintf("sequence/procs=%d", c.Procs), NT: true}
+	curSub, curCase = "back-to-back-sequences", c
+	afterCancelled := false
+	var total time.Duration
+	for i, st := range c.Steps {
+		if st.Target == "unattainable" && st.Cancel == "never" {
+			return info, fmt.Errorf("PRECONDITION: unattainable target without cancellation")
+		}
+		if i > 0 && c.Steps[i-1].Cancel != "never" && st.Cancel == "never" {
+			afterCancelled = true
+		}
+		el, err := mineAndJudge(st) // no pause between calls: whatever the previous call left running is still around
+		total += el
+		if err != nil {
+			return info, fmt.Errorf("call %d of %d issued back to back (GOMAXPROCS %d; previous calls: %s): %w", i, len(c.Steps), c.Procs, describe(c.Steps[:i]), err)
+		}
+	}
+	if afterCancelled {
+		info.Class += "/uncancelled-after-cancelled"
+	}
+	return info, awaitNoGoroutines(fmt.Sprintf("a sequence of %d Mine calls (%s)", len(c.Steps), describe(c.Steps)), total)
+}
+
+func describe(steps []runCase) string {
+	var parts []string
+	for _, s := range steps {
+		parts = append(parts, fmt.Sprintf("v%d/%dw/%s/%s", s.Version, s.Workers, s.Target, s.Cancel))
+	}
+	return strings.Join(parts, ", ")
+}
+
+func TestSequences(t *testing.T) {
+	h.Run(t, h.Sub[seqCase]{
+		Prop: "C13", Name: "back-to-back-sequences", N: 120,
+		Gen: func(t *rapid.T) seqCase {
+			c := seqCase{Procs: h.OneOf(t, "procs", 1, 1, 2, 4, 16)}
+			for i, n := 0, rapid.IntRange(2, 5).Draw(t, "n"); i < n; i++ {
+				st := genRun(t)
+				st.Procs = c.Procs
+				if rapid.Bool().Draw(t, "samev") && i > 0 {
+					st.Version = c.Steps[0].Version
+				}
+				if i > 0 && c.Steps[i-1].Cancel != "never" && h.Pick(t, "follow", 1, 2) == 1 {
+					// an uncancelled call that takes a while right after a cancelled one
+					st.Cancel, st.Target = "never", h.OneOf(t, "ft", "moderate", "moderate", "easy")
+				}
+				c.Steps = append(c.Steps, st)
+			}
+			return c
+		},
+		Check:   checkSeq,
+		Require: []string{"sequence/procs=1/uncancelled-after-cancelled", "sequence/procs=16/uncancelled-after-cancelled"},
+		Rule:    "histories: 2..5 Mine calls (any mix of versions, worker counts, targets and cancellation modes of the single-call sub-check) issued back to back with no pause, under GOMAXPROCS {1,2,4,16}, weighted to an uncancelled call of some duration right after a cancelled one; every call meets the result contract on its own (in particular: the cancellation error only if ITS context was cancelled); no pkg/pow goroutine alive 5 s after the last call; built with -race; all non-trivial",
+	})
+}
+
+// many successful calls in one process: resources that are acquired per call and released on some
+// paths only run out eventually
+type manyCase struct {
+	Version int    `json:"version"`
+	Workers int    `json:"workers"`
+	Calls   int    `json:"calls"`
+	Target  string `json:"target"`
+}
+
+func TestManyCalls(t *testing.T) {
+	h.Run(t, h.Sub[manyCase]{
+		Prop: "C13", Name: "many-successful-calls", N: 8,
+		Gen: func(t *rapid.T) manyCase {
+			return manyCase{Version: rapid.IntRange(1, 2).Draw(t, "version"), Workers: h.OneOf(t, "workers", 1, 4, 8), Calls: h.OneOf(t, "calls", 300, 400, 600), Target: h.OneOf(t, "target", "every-lane", "easy")}
+		},
+		Check: func(c manyCase) (h.Info, error) {
+			info := h.Info{Class: fmt.Sprintf("v%d/%d-calls", c.Version, c.Calls), NT: true}
+			curSub, curCase = "many-successful-calls", c
+			var total time.Duration
+			for i := 0; i < c.Calls; i++ {
+				el, err := mineAndJudge(runCase{Version: c.Version, Workers: c.Workers, Procs: runtime.GOMAXPROCS(0), Target: c.Target, Cancel: "never", Data: []byte{byte(i), byte(i >> 8)}})
+				total += el
+				if err != nil {
+					return info, fmt.Errorf("call %d of %d successive uncancelled calls (v%d, %d workers, %s target): %w", i, c.Calls, c.Version, c.Workers, c.Target, err)
+				}
+			}
+			return info, awaitNoGoroutines(fmt.Sprintf("%d successive Mine calls (v%d, %d workers)", c.Calls, c.Version, c.Workers), total)
+		},
+		Rule: "histories: 300..600 successive uncancelled Mine calls with a trivially easy target (1, 4 or 8 workers, both versions) in one process: every call returns a qualifying nonce in bounded time (a call that does not return within 180 s is reported with a goroutine dump), no goroutine left; all non-trivial",
+	})
 }
 
 var subName = "runs"
+
+// the sub-check and case in progress (a hang is reported from inside mineAndJudge with the whole case)
+var (
+	curSub  = subName
+	curCase any
+)
 
 // Worker objects are reused from run to run (no state may survive a call, cancelled or not)
 var w1 = map[int]*pow1.Worker{}
